@@ -411,6 +411,52 @@ def run(rep, ctx):
                  "%s: the hasher hashes %s which the comparator does not compare: trees that compare "
                  "equal can hash differently (and differ in a part Equal ignores)" % (kname, only_h))
 
+    # ---- C1: unchecked casts of the other operand's parts need an established kind agreement ------
+    c1 = rep.rule("C18.C1", "GUARD", "a part of the other expression is cast to a concrete type only where its kind is known to agree (or the cast is null-tested)", floor=2)
+    for f in F.funcs:
+        if f.is_dependent() or f.cfg is None or "ExprComparator::" not in f.qn:
+            continue
+        for c in f.walk():
+            if c["k"] != "CallExpr" or not (c.get("callee") or "").endswith("::Cast") and (c.get("callee") or "") != "mp::Cast":
+                continue
+            a = call_args(c)
+            if not a:
+                continue
+            x = strip(a[0])
+            while x["k"] in ("CXXConstructExpr", "MaterializeTemporaryExpr", "CXXBindTemporaryExpr", "ImplicitCastExpr") and len(kids(x)) >= 1:
+                x = strip(kids(x)[0])
+            xt = render(x).replace("this->", "")
+            if xt == "expr_" or x["k"] != "DeclRefExpr":
+                continue           # the visited expression itself: mp::Equal compared the kinds (S1); nested calls are typed accessors
+            # null-tested: the cast initialises the condition variable of an if, or is an operand of !
+            par = f.parent.get(c["i"])
+            tested = False
+            q = par
+            while q is not None and q["k"] in ("ImplicitCastExpr", "CXXConstructExpr", "ExprWithCleanups", "MaterializeTemporaryExpr", "CXXBindTemporaryExpr"):
+                q = f.parent.get(q["i"])
+            if q is not None and q["k"] == "VarDecl":
+                owner = f.parent.get(q["i"])
+                while owner is not None and owner["k"] == "DeclStmt":
+                    owner = f.parent.get(owner["i"])
+                if owner is not None and owner["k"] == "IfStmt":
+                    tested = True
+                else:
+                    # a local that is null-tested before every use
+                    uses = [u for u in f.walk() if u["k"] == "DeclRefExpr" and u.get("declId") == q.get("declId")]
+                    tested = bool(uses) and all(any(strip(f.nodes[cid]).get("declId") == q.get("declId") or
+                                                    (strip(f.nodes[cid])["k"] == "UnaryOperator" and strip(kids(strip(f.nodes[cid]))[0]).get("declId") == q.get("declId"))
+                                                    for cid, pol in f.cfg.facts_at(u)) or
+                                                (f.parent.get(u["i"]) or {}).get("k") == "UnaryOperator" for u in uses)
+            agree = False
+            for cid, pol in f.cfg.facts_at(c):
+                t_ = render(f.nodes[cid]).replace(" ", "")
+                if (xt + ".kind()") in t_ and (("!=" in t_ and pol is False) or ("==" in t_ and pol is True)):
+                    agree = True
+            c1.check(tested or agree, "%s|Cast(%s)|%s" % (f.qn.split("::")[-1], xt, (c.get("calleeFull") or "").split("<")[-1].rstrip(">")[:30]), short_loc(c.get("l")),
+                     "%s: Cast of `%s` is %s" % (f.qn.split("::")[-1], xt, "null-tested" if tested else "made under an established kind agreement"),
+                     "%s casts `%s` to %s without knowing its kind: for operands of different kinds the cast yields a null expression whose members are then read (memory error instead of `false`)" %
+                     (f.qn.split("::")[-1], xt, (c.get("calleeFull") or "").split("<")[-1].rstrip(">")))
+
     # ---- S1 ------------------------------------------------------------------------
     s1 = rep.rule("C18.S1", "SCAN",
                   "character loops stop at the NUL; mp::Equal compares kind() before dispatching",
